@@ -61,11 +61,25 @@ func (s *c10State) thresholds() (int, int) {
 	return s.e.cfg.Async.Threshold, s.e.cfg.Async.TimeoutMs
 }
 
+// settle: the virtual deadline has passed; before declaring a violation give a
+// flusher that is still busy in real time (loaded machine) the chance to finish.
+func (s *c10State) settle(bad func(docs, others []string) bool) ([]string, []string, []string) {
+	docs, others, extra := s.lagging()
+	for i := 0; i < 100 && bad(docs, others); i++ {
+		vshim.WaitParked(guardReal)
+		time.Sleep(20 * time.Millisecond)
+		docs, others, extra = s.lagging()
+	}
+	return docs, others, extra
+}
+
 // afterTick applies the two deadline rules.
 func (s *c10State) afterTick(where string) {
 	e := s.e
 	thr, to := s.thresholds()
-	docs, others, extra := s.lagging()
+	docs, others, extra := s.settle(func(d, o []string) bool {
+		return (s.quietMs >= 200 && (len(d) >= thr || len(o) >= thr)) || (s.quietMs >= to+200 && len(d)+len(o) > 0)
+	})
 	if len(extra) > 0 {
 		e.failf("%s: files exist for objects that are not stored (deleted while their write was pending?): %v", where, extra)
 	}
